@@ -5,6 +5,11 @@ CHECKS = {
     technique="TLA+ state machine Range.tla (set semantics vs header formulas) model-checked by TLC; every transition of the exported state graph replayed on the real range_t<T>",
     text="TLC proves Members(lo,hi)=r for the header's formulas on all behaviours within bounds; each TLC transition is then executed on the real template at the ends of int8/int16/int32 and on double (ulp/infinity embeddings) under ASan/UBSan, so a changed formula in range.h disagrees with the spec's set and is reported.",
     note="Trusts TLC and the order/adjacency-preserving embeddings in harness/replay_range.cpp; operands bounded to -4..4 (quick) / -6..6 (thorough), results overflowing T excluded as the statement says."),
+ "C10": dict(
+    category="model_checking", design_ref="DESIGN.md section 5 (C10), 2.6",
+    technique="TLA+ module TypeClass.tla: abstract formula-building stack machine (TLC fixpoint, all depths) + exhaustive concrete trees to depth 2 replayed as guards and invariants through the real type checker",
+    text="TLC checks accepted=>convex and conjunction completeness on the transcription of typechecker.cpp's rules over an abstract domain that covers formulas of every depth; every tree to depth 2 is rendered into a model and the real verdict is compared with the property's Convex predicate (violation) and with the transcription (drift note).",
+    note="Trusts TLC, the Convex definition written from the statement, and the python renderer; replay bound depth 2 (75k trees x 2 roles quick, 620k x 2 thorough); deeper formulas only through the abstract machine."),
 }
 NOT_APPLICABLE = {}
 PENDING_REASON = "check not built yet (work in progress; see DESIGN.md section 5 for the plan)"
